@@ -136,7 +136,22 @@ def run_case(case):
     if case.get("inst"):
         inst = copy.deepcopy(case["inst"])
     elif case.get("want") == "flowsafe":
-        if rng.random() < 0.6:
+        r_fam = rng.random()
+        if r_fam < 0.25:
+            # 'decimal hub': several sources feed one node that feeds several sinks, all values decimal fractions (0.1 .. 0.9) whose
+            # float sums and differences are not exact: excess flows that are 0 in the reals come out as +-1e-17
+            ni, no = rng.randint(2, 4), rng.randint(2, 3)
+            ins = [rng.randint(1, 4) for _ in range(ni)]; tot = sum(ins)
+            cuts = sorted(rng.sample(range(1, tot), min(no - 1, tot - 1))); outs = [b - a for a, b in zip([0] + cuts, cuts + [tot])]
+            if rng.random() < 0.6:
+                outs = [tot - ins[-1], ins[-1]]        # one out-edge carries exactly what one in-edge brings: path (that in-edge, the OTHER out-edge) has excess 0
+            nodes = [f"s{i}" for i in range(ni)] + ["m"] + [f"t{j}" for j in range(len(outs))]
+            edges = [(f"s{i}", "m") for i in range(ni)] + [("m", f"t{j}") for j in range(len(outs))]
+            flow = {(f"s{i}", "m"): ins[i] / 10 for i in range(ni)}; flow.update({("m", f"t{j}"): outs[j] / 10 for j in range(len(outs))})
+            if rng.random() < 0.5:
+                nodes.append("z"); edges.append(("z", "s0")); flow[("z", "s0")] = ins[0] / 10
+            planted = []; wt_forced = "float"
+        elif r_fam < 0.7:
             # 'spine' family: a path v0..vk whose inner nodes each have one side entrance and one side exit; the exits leak exactly the
             # flow of the first spine edge after j steps, so the window v0..v(j+1) has excess flow exactly 0 (the boundary of flow-safety)
             kk = rng.randint(2, 4); f0 = rng.randint(2, 4)
@@ -167,8 +182,21 @@ def run_case(case):
                 break
           else:
             return {"viol": [], "obs": {"c05.shape_skipped": 1}, "nontrivial": False}
-        wt = rng.choice(["int", "float"])
-        inst = {"cls": cls, "spec": gen.spec(nodes, edges, eattr={e: {"flow": (float(f) if wt == "float" else f)} for e, f in flow.items()}), "kw": {"flow_attr": "flow", "weight_type": wt}}
+        wt = rng.choice(["int", "float", "float"])
+        if r_fam < 0.25:
+            wt = "float"
+        dec = wt == "float" and rng.random() < 0.6 and r_fam >= 0.25        # decimal fractions (0.1, 0.2, 0.3 ...): sums are not exact in binary
+        fv = lambda f: (round(f * 0.1, 10) if dec else float(f)) if wt == "float" else f
+        if r_fam < 0.25:
+            fv = lambda f: f
+        if dec and planted:
+            # recompute the flow as a float sum of the planted decimal weights (what a user's pipeline would produce)
+            flow = {e: 0.0 for e in flow}
+            for p_, w_ in planted:
+                for e in zip(p_, p_[1:]):
+                    flow[e] += w_ * 0.1
+            fv = lambda f: f
+        inst = {"cls": cls, "spec": gen.spec(nodes, edges, eattr={e: {"flow": fv(f)} for e, f in flow.items()}), "kw": {"flow_attr": "flow", "weight_type": wt}}
         fs_settings = [{"optimize_with_greedy": False, "optimize_with_flow_safe_paths": False, "optimize_with_safe_paths": False},
                        {"optimize_with_flow_safe_paths": True, "optimize_with_safe_paths": False, "optimize_with_safety_as_subpath_constraints": True},
                        {"optimize_with_greedy": False, "optimize_with_flow_safe_paths": True, "optimize_with_safe_paths": False, "optimize_with_safety_as_subpath_constraints": True},
